@@ -33,6 +33,8 @@ type SProp struct {
 	Node *SNode
 	// KeyRef: the key is a user-type reference written without quotes (@name : value): "any key that matches that type".
 	KeyRef bool
+	// From: set on the copies that DeclaredPathProps hands out for properties a Path body inherits (allOf)
+	From string
 }
 
 // ---- bodies ----
@@ -111,6 +113,8 @@ type Block struct {
 	PathDecl *SNode
 	Methods  []*Method
 	RPC      []*RPCMethod
+	// ProtoAfter: the Protocol directive of a JSON-RPC URL is written after that many of its Method directives (0: first)
+	ProtoAfter int
 
 	// method (stand-alone, path-bearing)
 	Method *Method
@@ -147,6 +151,7 @@ type genState struct {
 	tags    []*Block
 	uniq    int
 	prefixD map[string]bool // path prefixes that already have a Path declaration
+	extra   []*Block        // user types made on the way (bases and bodies of Path directives)
 	paths   map[string]bool // URL paths used
 	inter   map[string]bool // verb+path used
 }
@@ -156,6 +161,11 @@ func (g *genState) id() int { g.uniq++; return g.uniq }
 var words = []string{"alpha", "beta", "gamma", "delta", "omega", "cat", "dog", "fox", "red", "blue"}
 
 func (g *genState) word() string { return words[g.r.Intn(len(words))] }
+
+var specials = []string{"(beta)", "{next}", "(v2", "v2)", "[draft]", "a/b", "'single'", "x,y", "a:b", "{", "(", ")", "}", "regex", "GET", "200", "@at", "{}", "()", "//"[:1] + "x", "any", "Method", "*", "-", "1.0-rc(1)"}
+
+// special: a parameter value that needs no quotes although it begins with or consists of punctuation or keywords
+func (g *genState) special() string { return specials[g.r.Intn(len(specials))] }
 
 func (g *genState) annotation() string {
 	if g.r.Chance(1, 2) {
@@ -496,7 +506,13 @@ func (g *genState) pathDecl(path string) *SNode {
 	if len(props) == 0 {
 		return nil
 	}
-	return &SNode{Kind: "object", Props: props}
+	decl := &SNode{Kind: "object", Props: props}
+	if g.opt.AllowAllOf && g.r.Chance(1, 3) {
+		var extra []*Block
+		decl, extra = SplitPathDecl(decl, g.r.Range(1, 2), g.r.Range(1, len(props)), fmt.Sprintf("@t%d", g.id()))
+		g.extra = append(g.extra, extra...)
+	}
+	return decl
 }
 
 var verbs = []string{"GET", "POST", "PUT", "PATCH", "DELETE"}
@@ -585,7 +601,10 @@ func Generate(r *xrand.Rand, opt Options) *Model {
 	var blocks []*Block
 	if r.Chance(1, 2) {
 		b := &Block{Kind: "info"}
-		switch r.Intn(3) {
+		switch r.Intn(4) {
+		case 3:
+			// values that need no quotes although they look like punctuation of the language
+			b.Title, b.Version = g.special(), g.special()
 		case 0:
 			b.Title = "The " + g.word() + " API"
 		case 1:
@@ -689,7 +708,11 @@ func Generate(r *xrand.Rand, opt Options) *Model {
 			b := &Block{Kind: "rpcurl", Path: p, Tags: g.pickTags()}
 			nm := r.Range(1, 3)
 			for k := 0; k < nm; k++ {
-				rm := &RPCMethod{Name: fmt.Sprintf("%s%d", g.word(), g.id()), Annotation: g.annotation(), Tags: g.pickTags()}
+				nmw := g.word()
+				if r.Chance(1, 4) {
+					nmw = g.special()
+				}
+				rm := &RPCMethod{Name: fmt.Sprintf("%s%d", nmw, g.id()), Annotation: g.annotation(), Tags: g.pickTags()}
 				if r.Chance(1, 3) {
 					rm.Description = g.description()
 				}
@@ -700,6 +723,9 @@ func Generate(r *xrand.Rand, opt Options) *Model {
 					rm.Result = g.schemaNode(0, "")
 				}
 				b.RPC = append(b.RPC, rm)
+			}
+			if r.Chance(1, 3) {
+				b.ProtoAfter = r.Range(1, len(b.RPC))
 			}
 			blocks = append(blocks, b)
 		default: // stand-alone method
@@ -713,12 +739,38 @@ func Generate(r *xrand.Rand, opt Options) *Model {
 			blocks = append(blocks, &Block{Kind: "method", Method: g.method(v, p, true)})
 		}
 	}
+	blocks = append(blocks, g.extra...)
 	// declaration order: keep info first half of the time, shuffle the rest (names may be used before they are written)
 	perm := r.Perm(len(blocks))
 	for _, i := range perm {
 		m.Blocks = append(m.Blocks, blocks[i])
 	}
 	return m
+}
+
+// SplitPathDecl rewrites the body of a Path directive (an object of scalar properties) into one of the other forms the
+// language has for it, with the user types that form needs: a reference to an object type that holds the properties
+// ("Path / @type"), or an object that inherits some (or all) of them from a base type (allOf). form: 0 as is, 1 reference,
+// 2 allOf with the first k properties in the base.
+func SplitPathDecl(decl *SNode, form int, k int, typeName string) (*SNode, []*Block) {
+	if decl == nil || decl.Kind != "object" || len(decl.Props) == 0 {
+		return decl, nil
+	}
+	switch form {
+	case 1:
+		t := &Block{Kind: "type", Name: typeName, Notation: "jsight", Schema: &SNode{Kind: "object", Props: decl.Props}}
+		return &SNode{Kind: "ref", Ref: typeName}, []*Block{t}
+	case 2:
+		if k < 1 {
+			k = 1
+		}
+		if k > len(decl.Props) {
+			k = len(decl.Props)
+		}
+		t := &Block{Kind: "type", Name: typeName, Notation: "jsight", Schema: &SNode{Kind: "object", Props: decl.Props[:k:k]}}
+		return &SNode{Kind: "object", AllOf: []string{typeName}, Props: decl.Props[k:]}, []*Block{t}
+	}
+	return decl, nil
 }
 
 // TypeByName finds a type block.
